@@ -43,7 +43,7 @@ MUTANTS = [("base", "enc_nocarry"), ("base", "ws_noskip")]
 
 BOUNDS = {
     "quick":    {"base": ("q", 5, 3), "basedec": ("q", 5, 3), "utf8": ("q", 5, 3), "utf16": ("q", 6, 3)},
-    "thorough": {"base": ("t", 5, 3), "basedec": ("t", 5, 3), "utf8": ("t", 5, 3), "utf16": ("t", 6, 3)},
+    "thorough": {"base": ("t", 5, 4), "basedec": ("t", 5, 3), "utf8": ("t", 5, 3), "utf16": ("t", 6, 3)},
 }
 
 
@@ -74,6 +74,8 @@ def tlc_stream(name, cfg, outpath, workers, timeout, env=None):
            os.path.join(SPEC, "Transform.tla")]
     e = dict(os.environ)
     e.update(env or {})
+    # the state spaces are tiny; do not let every JVM claim a quarter of the machine's memory
+    e["JAVA_TOOL_OPTIONS"] = (e.get("JAVA_TOOL_OPTIONS", "") + " -Xmx3g").strip()
     t0 = time.time()
     r = TlcResult()
     with open(outpath, "w") as fo:
@@ -272,35 +274,57 @@ def write_vectors(tab, path, san, seed):
     return plan
 
 
-def run_driver_replay(drv, vin, vout, env=None, timeout=1500):
-    """Runs the replay; restarts after an in-process crash.  Returns list of (first_missing_id, stderr) crashes."""
-    crashes = []
-    rc, out, err = sh([drv, "replay", vin, vout], timeout=timeout, env=env)
-    if rc == 124:
-        raise Broken("driver timed out")
-    start = 0
-    total = sum(1 for _ in open(vin))
-    done = sum(1 for _ in open(vout)) if os.path.exists(vout) else 0
-    pieces = [vout]
-    stderr_all = err
-    while done + start < total:
-        if len(crashes) >= 40:
-            raise Broken("driver keeps crashing in process (more than 40 times): %s" % err[-800:])
-        crashed_id = start + done
-        crashes.append((crashed_id, err[-3000:]))
-        # restart after the crashed vector
-        start = crashed_id + 1
-        rest = vin + ".rest%d" % len(crashes)
-        with open(vin) as fi, open(rest, "w") as fo:
-            for i, line in enumerate(fi):
-                if i >= start:
-                    fo.write(line)
-        po = vout + ".rest%d" % len(crashes)
-        rc, out, err = sh([drv, "replay", rest, po], timeout=timeout, env=env)
-        stderr_all += err
-        done = sum(1 for _ in open(po)) if os.path.exists(po) else 0
+def _run_chunk(cmd, cin, cout, env, timeout):
+    """One driver process over one chunk; restarts after an in-process crash.
+    Returns (pieces, [(crashed id, stderr tail)], stderr)."""
+    pieces, crashes, errs = [], [], ""
+    cur = cin
+    n = 0
+    while True:
+        po = cout if n == 0 else "%s.rest%d" % (cout, n)
+        rc, out, err = sh(cmd + ["replay", cur, po], timeout=timeout, env=env)
+        if rc == 124:
+            raise Broken("driver timed out")
+        errs += err[-4000:]
         pieces.append(po)
-    return pieces, crashes, stderr_all
+        lines = open(cur).read().splitlines()
+        done = sum(1 for _ in open(po)) if os.path.exists(po) else 0
+        if done >= len(lines):
+            return pieces, crashes, errs
+        if len(crashes) >= 25:
+            raise Broken("driver keeps dying in process (more than 25 times in one chunk): %s" % err[-800:])
+        crashes.append((int(lines[done].split()[0]), err[-3000:]))
+        n += 1
+        cur = "%s.rest%d" % (cin, n)
+        with open(cur, "w") as f:
+            f.write("\n".join(lines[done + 1:]) + ("\n" if lines[done + 1:] else ""))
+        if not lines[done + 1:]:
+            return pieces, crashes, errs
+
+
+def run_driver_replay(cmd, vin, vout, env=None, timeout=1500, par=None):
+    """Replays vin with `cmd` (driver, possibly under valgrind) in parallel chunks."""
+    if isinstance(cmd, str):
+        cmd = [cmd]
+    lines = open(vin).read().splitlines()
+    par = par or (max(1, min(NCPU // 2, 8)) if len(lines) > 20000 else 1)
+    size = (len(lines) + par - 1) // par if lines else 1
+    chunks = []
+    for c in range(par):
+        part = lines[c * size:(c + 1) * size]
+        if not part:
+            continue
+        cin = "%s.c%d" % (vin, c)
+        with open(cin, "w") as f:
+            f.write("\n".join(part) + "\n")
+        chunks.append((cin, "%s.c%d" % (vout, c)))
+    pieces, crashes, errs = [], [], ""
+    with ThreadPoolExecutor(max_workers=max(1, len(chunks))) as ex:
+        for p, c, e in ex.map(lambda a: _run_chunk(cmd, a[0], a[1], env, timeout), chunks):
+            pieces += p
+            crashes += c
+            errs += e
+    return pieces, crashes, errs
 
 
 def read_results(pieces, crashes):
@@ -520,7 +544,8 @@ def strip_ws(b):
 
 def random_laws(v, d, drv, seed, iters, maxlen, tag, env=None, timeout=1200):
     out = os.path.join(d, "random_%s.out" % tag)
-    rc, o, err = sh([drv, "random", str(seed), str(iters), str(maxlen), out, "fork"], timeout=timeout, env=env)
+    rc, o, err = sh((drv if isinstance(drv, list) else [drv]) + ["random", str(seed), str(iters), str(maxlen), out, "fork"],
+                    timeout=timeout, env=env)
     if rc != 0:
         raise Broken("random law driver failed rc=%s: %s" % (rc, err[-1500:]))
     wit, done, unshrunk = {}, None, 0
@@ -647,6 +672,21 @@ def report_known(v, allstats):
     v.notes["known_defects_observed"] = {k: {"count": m["count"], "where": sorted(set(m["where"]))} for k, m in merged.items()}
 
 
+def memory_checker(plain_drv, d):
+    """The sanitizer build if it can be built, otherwise valgrind memcheck on the plain driver
+    (debug info stripped: valgrind cannot read clang-16's DWARF 5)."""
+    try:
+        return build_driver("drv_transform", "asan"), SAN_ENV, "asan+ubsan build"
+    except Broken as e:
+        why = str(e)
+    if not shutil.which("valgrind"):
+        raise Broken("neither a sanitizer build nor valgrind is available: %s" % why[-600:])
+    vg = os.path.join(d, "drv_transform.stripped")
+    sh(["objcopy", "--strip-debug", plain_drv, vg], check=True)
+    return (["valgrind", "-q", "--error-exitcode=99", "--exit-on-first-error=yes", "--run-libc-freeres=no", vg],
+            {"C20_MEMCHECK": "1"}, "valgrind memcheck (sanitizer runtime for clang-16 is not installed)")
+
+
 SAN_ENV = {"ASAN_OPTIONS": "detect_leaks=0:abort_on_error=0:allocator_may_return_null=1:max_allocation_size_mb=2048",
            "UBSAN_OPTIONS": "halt_on_error=1:print_stacktrace=1"}
 
@@ -682,15 +722,18 @@ def run(tier, seed):
     v.notes["replay"] = {k: st[k] for k in st if k != "known"}
     v.notes["random_laws"] = {k: rs[k] for k in rs if k != "known"}
     if tier == "thorough":
-        adrv = build_driver("drv_transform", "asan")
-        st2, pend2, err2 = replay_vectors(v, tab, adrv, d, "asan", env=SAN_ENV)
-        resolve_inverse(v, d, adrv, pend2, "asan", st2, env=SAN_ENV)
-        allstats.append(("replay-asan", st2))
-        rs2 = random_laws(v, d, adrv, seed + 7919, 4000, 3000, "asan", env=SAN_ENV, timeout=1500)
-        allstats.append(("random-laws-asan", rs2))
-        v.notes["replay_asan"] = {k: st2[k] for k in st2 if k != "known"}
-        v.notes["random_laws_asan"] = {k: rs2[k] for k in rs2 if k != "known"}
-        v.notes["memory_safety"] = "observed: vectors and random laws re-run on the ASan+UBSan build; decided: index ranges in Transform.tla (ghost oob)"
+        adrv, senv, tool = memory_checker(drv, d)
+        log("[C20] memory checker: %s" % tool)
+        st2, pend2, err2 = replay_vectors(v, tab, adrv, d, "memcheck", env=senv)
+        resolve_inverse(v, d, adrv, pend2, "memcheck", st2, env=senv)
+        allstats.append(("replay-" + tool.split()[0], st2))
+        log("[C20] checked replay done %.0fs" % (time.time() - v.t0))
+        rs2 = random_laws(v, d, adrv, seed + 7919, 4000 if tool.startswith("asan") else 1200, 3000, "memcheck", env=senv, timeout=1500)
+        allstats.append(("random-laws-" + tool.split()[0], rs2))
+        v.notes["replay_memcheck"] = {k: st2[k] for k in st2 if k != "known"}
+        v.notes["random_laws_memcheck"] = {k: rs2[k] for k in rs2 if k != "known"}
+        v.notes["memory_safety"] = ("observed: vectors and random laws re-run under %s; decided: index ranges in Transform.tla "
+                                    "(ghost oob)" % tool)
     else:
         v.notes["memory_safety"] = "quick tier: index ranges decided in Transform.tla (ghost oob); sanitizer build only in the thorough tier"
     report_known(v, allstats)
